@@ -46,6 +46,7 @@ class Stepper(object):
         self.h.event("PRINT_STARTED")
         # reference model of the property's condition (never read back from the plugin)
         self.active = True
+        self.enabled = True      # '@ExcludeRegion off' in the file: nothing is suppressed meanwhile, the regions are as protected as ever
         self.may_shrink = bool(case.get("config", {}).get("may_shrink"))
         self.accepted = self.refused = 0
         self.classes = set()
@@ -69,6 +70,11 @@ class Stepper(object):
             if op[1] == "mayShrinkRegionsWhilePrinting":
                 self.may_shrink = bool(op[2])
             return out
+        if op[0] == "at":
+            h.at("ExcludeRegion", op[1])
+            self.enabled = (op[1] == "on")
+            self.classes.add("exclusion_switched_" + op[1])
+            return out
         if op[0] == "creep":
             _, rid, n, eps = op
             cur = [r for r in h.regions() if r["id"] == rid]
@@ -87,9 +93,9 @@ class Stepper(object):
             scale = max([1.0] + [abs(v) for v in first.values() if isinstance(v, (int, float))])
             regs_after = [to_internal(d) for d in h.regions()]
             for (x, y), w in zip(pts, was):
-                if w and not h.state.isPointExcluded(x, y):
+                if w and not (self.enabled and h.state.isPointExcluded(x, y)):
                     gap = min([geom.signed_dist(r, x, y) for r in regs_after] or [float("inf")])
-                    if abs(gap) > 1e-9 * scale:
+                    if gap > 1e-9 * scale or (self.enabled and abs(gap) > 1e-9 * scale):
                         bad("c12_area_shrank", "after %d updates shrinking %r by %r each, point (%r,%r) is no longer excluded (gap %r)" % (n, rid, eps, x, y, gap))
                         break
             self.classes.add("creep")
@@ -101,7 +107,7 @@ class Stepper(object):
                 h.api("addExcludeRegion", {"type": "RectangularRegion", "x1": 100.0 + 3 * (kk % 20), "y1": 100.0 + 3 * (kk // 20),
                                            "x2": 102.0 + 3 * (kk % 20), "y2": 102.0 + 3 * (kk // 20), "id": "m%d_%d" % (base, k)})
                 # every part added so far is still excluded (centre probe; the full probe set runs at the next request)
-                if self.condition():
+                if self.condition() and self.enabled:
                     for j in range(0, k + 1, 7):
                         jj = j - 1 if (twin and j % 10 == 9) else j
                         if not h.state.isPointExcluded(101.0 + 3 * (jj % 20), 101.0 + 3 * (jj // 20)):
@@ -158,8 +164,10 @@ class Stepper(object):
         regs_after = [to_internal(d) for d in after]
         scale = max([1.0] + [abs(v) for d in before + after for k, v in d.items() if k not in ("type", "id") and isinstance(v, (int, float))])
         for (x, y), was in zip(pts, inside_before):
-            if was and not h.state.isPointExcluded(x, y):
+            if was and not (self.enabled and h.state.isPointExcluded(x, y)):
                 gap = min([geom.signed_dist(r, x, y) for r in regs_after] or [float("inf")])
+                if not self.enabled and gap <= 1e-9 * scale:
+                    continue        # exclusion is switched off by the file: the point is still inside a listed region, which is all that can be said
                 if gap > 1e-9 * scale:
                     bad("c12_area_shrank", "point (%r,%r) was excluded before the request and is not afterwards (outside by %r); response %r" % (x, y, gap, resp))
                     break
@@ -262,9 +270,9 @@ def machine(tier, col):  # pylint: disable=unused-argument
         MOD = mod
         COL = col
 
-        @initialize(debug=st.booleans())
-        def setup(self, debug):
-            self._init_case({"config": {"may_shrink": False, "debug": debug}})
+        @initialize(debug=st.booleans(), clear=st.booleans())
+        def setup(self, debug, clear):
+            self._init_case({"config": {"may_shrink": False, "debug": debug, "clear_after_print": clear}})
 
         @rule(rect=st.booleans(), a=coord, b=coord, w=st.sampled_from([0.0, 1.0, 4.0, 10.5]), h=st.sampled_from([0.0, 2.0, 6.0]),
               order=st.integers(0, 3))
@@ -360,6 +368,11 @@ def machine(tier, col):  # pylint: disable=unused-argument
                     else {"type": "CircularRegion", "cx": a, "cy": b, "r": 2.5, "id": rid})
             self.do(["api", "addExcludeRegion", data])
 
+        @rule(what=st.sampled_from(["off", "off", "on"]))
+        def exclusion_switched_by_the_file(self, what):
+            """'@ExcludeRegion off' / 'on' arrives from the file: regions stay as protected as they were."""
+            self.do(["at", what])
+
         @rule(n=st.sampled_from([30, 105]), twin=st.booleans(), go=st.integers(0, 24))
         def burst(self, n, twin, go):
             """Many small regions (a print with many parts; rare), some of them twins with identical geometry and different ids."""
@@ -383,10 +396,13 @@ def machine(tier, col):  # pylint: disable=unused-argument
             if cur:
                 self.do(["api", "deleteExcludeRegion", {"id": cur[pick % len(cur)]["id"]}])
 
-        @rule(what=st.sampled_from(["shrink_on", "shrink_off", "shrink_off", "end", "start", "start", "pause"]))
+        @rule(what=st.sampled_from(["shrink_on", "shrink_off", "shrink_off", "end", "start", "start", "pause", "clear_on", "clear_off"]))
         def environment(self, what):
             if what.startswith("shrink"):
                 self.do(["setting", "mayShrinkRegionsWhilePrinting", what == "shrink_on"])
+            elif what.startswith("clear"):
+                # (the other option of the settings page: has no bearing on what may be changed during a print)
+                self.do(["setting", "clearRegionsAfterPrintFinishes", what == "clear_on"])
             elif what == "end":
                 self.do(["event", "PRINT_DONE"])
             elif what == "pause":
